@@ -80,6 +80,24 @@ func c20Lexical(name string) (up int, rest []string) {
 	return up, rest
 }
 
+// c20PureClimb: after dropping "." and empty segments every ".." comes before every ordinary segment.
+// For such names lexical and kernel resolution agree whatever exists on disk.
+func c20PureClimb(name string) bool {
+	plain := false
+	for _, s := range strings.Split(name, "/") {
+		switch s {
+		case "", ".":
+		case "..":
+			if plain {
+				return false
+			}
+		default:
+			plain = true
+		}
+	}
+	return true
+}
+
 // c20NameHostile: a name is hostile unless it is a plain relative path of ordinary, non-colliding
 // segments (that is: no "..", ".", empty segment, leading or trailing "/", NUL, over-long segment,
 // or segment equal to an existing file/dir).
